@@ -509,9 +509,12 @@ class Executor:
                 else:
                     stop, cont = tv, z3.Not(tv)
                 out = []
-                s_stop = s2.copy().assume(stop)
-                out.append(Res(s_stop, v))
-                out.extend(go(i + 1, s2.copy().assume(cont)))
+                # a side that is syntactically impossible is not explored (its state would carry `False` as a known fact)
+                if not z3.is_false(z3.simplify(stop)):
+                    s_stop = s2.copy().assume(stop)
+                    out.append(Res(s_stop, v))
+                if not z3.is_false(z3.simplify(cont)):
+                    out.extend(go(i + 1, s2.copy().assume(cont)))
                 return out
             return bind(self.ev(e.values[i], s), f)
         rs = go(0, st)
